@@ -633,6 +633,11 @@ class Exec:
     def _builtin(self, st, e, fname, args, kwargs):
         if fname == 'int' and len(args) == 1 and args[0].kind == 'int':
             return args[0]
+        if fname == 'divmod' and len(args) == 2 and not kwargs and args[0].kind == 'int' and args[1].kind == 'int':
+            # divmod(a, b) == (a // b, a % b) for ints: the two operators' own encoding (ZeroDivisionError included)
+            q = self.binop(st, None, 'FloorDiv', args[0], args[1])
+            r = self.binop(st, None, 'Mod', args[0], args[1])
+            return T([q, r])
         if fname == 'int' and len(args) == 1 and args[0].kind == 'bool':
             return I(If(args[0].t, 1, 0))
         if fname == 'bool' and len(args) == 1:
